@@ -34,10 +34,16 @@ PLoad(phys, v, i, acc) ==
 PAnchor(phys, v) == LET a == PLoad(phys, v, 1, [certs |-> {}, err |-> FALSE, seen |-> {}]) IN
                     IF a.err THEN "loadError" ELSE IF "root" \in a.certs THEN "found" ELSE "notFound"
 
+(* store references whose NAME is a relative path into another type's store ("ca:../signingAuthority/n1"): not file-name-safe, *)
+(* so no valid policy carries them - a document with such a reference is refused as a whole and nothing is verified under it  *)
+TravRefs == {"trav:ca->sa:n1", "trav:sa->ca:n1"}
+DocValid(hist) == \A i \in 1..Len(hist) : Range(hist[i].listed) \cap TravRefs = {}
+
 (* what one verification answers - a function of the directory and of itself *)
 Answer(phys, v) == [authentic |-> PAnchor(phys, v) = "found"]
-RECURSIVE Answers(_, _, _)
-Answers(phys, hist, i) == IF i > Len(hist) THEN <<>> ELSE <<Answer(phys, hist[i])>> \o Answers(phys, hist, i + 1)
+RECURSIVE AnswersFrom(_, _, _)
+AnswersFrom(phys, hist, i) == IF i > Len(hist) THEN <<>> ELSE <<Answer(phys, hist[i])>> \o AnswersFrom(phys, hist, i + 1)
+Answers(phys, hist, i) == IF DocValid(hist) THEN AnswersFrom(phys, hist, i) ELSE [k \in 1..Len(hist) |-> [authentic |-> FALSE]]
 
 (* declarative: a chain certificate sits in a listed store of the wanted type, and every listed store of that type loads *)
 D_Authentic(phys, v) ==
